@@ -403,6 +403,7 @@ func run3(c *fw.Ctx) {
 	runtimeError = saved
 	runFrameLimit(c)
 	runCaptured(c)
+	runRepetition(c)
 	if c.Thorough() {
 		// flat space without context, one node deeper
 		c.Family("flat", "core<=5 nodes, no context, no prefix")
